@@ -23,6 +23,7 @@ import pickle
 import random
 
 import numpy as np
+import pandas as pd
 
 from .. import e1, e2, gen, models, seams
 from ..core import HarnessError, Sim
@@ -54,7 +55,8 @@ COMPONENTS = {
 }
 EXPECTED_PROBES = ["kind_sched", "kind_clients", "kind_numba", "two_clients_inside_build_sindex",
                    "pickle_of_indexed_object", "cold_cache_first_access_concurrent",
-                   "two_concurrent_pack_to_parquet_calls", "fine_mode_schedule"]
+                   "two_concurrent_pack_to_parquet_calls", "fine_mode_schedule",
+                   "concurrent_sjoin_of_shared_frames"]
 
 ENV = {"NUMBA_NUM_THREADS": "16"}      # the sweep needs up to 16 numba threads
 REPO = seams.SP_DIR.rstrip("/")
@@ -96,16 +98,20 @@ def cases(tier, base_seed):
             ops = []
             # a third of the cases: every client calls the SAME operation (with its own box) -
             # many threads hammering one method is the usual way such objects are shared
-            same = rng.choice(_client_ops(obj)) if rng.random() < 0.35 else None
+            menu = _client_ops(obj)
+            if obj in ("frame", "dask") and kind == "point":
+                # spatial joins of the SHARED frame(s) with a shared right frame
+                menu = menu + ("sjoin_inner", "sjoin_left", "sjoin_inner")
+            same = rng.choice(menu) if rng.random() < 0.35 else None
             for _ in range(nc):
-                ops.append([{"op": same or rng.choice(_client_ops(obj)), "box": gen.gen_box(rng)}
+                ops.append([{"op": same or rng.choice(menu), "box": gen.gen_box(rng)}
                             for _ in range(rng.randint(1, 3))])
             if obj == "dask_store":
                 ops = [o[:1] for o in ops[:3]]        # one (expensive) op per client, <= 3 clients
                 if not any(o[0]["op"] == "pack_parquet" for o in ops):
                     ops[0][0]["op"] = "pack_parquet"
             yield {"seed": seed, "kind": "clients", "object": obj, "frame": frame,
-                   "clients": ops, "page_size": rng.choice((1, 2, 3, 8, 512)),
+                   "right": _right(rng), "clients": ops, "page_size": rng.choice((1, 2, 3, 8, 512)),
                    "npartitions": rng.choice((2, 3, 5)), "store": e1.gen_store_cfg(rng),
                    "parts": {"mode": "even", "k": rng.randint(1, min(4, n))},
                    "line_p": rng.choice((0.05, 0.2, 0.5)),
@@ -296,9 +302,24 @@ def _build_object(case, cold=True):
     return e1.make_ddf(gdf, case["parts"])
 
 
-def _client_op(obj_kind, obj, op, box):
+def _right_frame(case):
+    from spatialpandas import GeoDataFrame
+    r = case.get("right")
+    if not r:
+        return None
+    return GeoDataFrame({"rg": gen.build_array(r["kind"], r["values"]), "rv": r["rv"]},
+                        index=pd.Index(range(50, 50 + len(r["rv"])), name="rid"))
+
+
+def _client_op(obj_kind, obj, op, box, right=None):
     x0, y0, x1, y1 = box
     t = tuple(box)
+    if op.startswith("sjoin_"):
+        from spatialpandas import sjoin
+        out = sjoin(obj, right, how=op[6:])
+        if obj_kind == "dask":
+            out = out.compute()
+        return _canon_df(out)
     if obj_kind == "rtree":
         if op == "intersects":
             return sorted(int(v) for v in obj.intersects(t))
@@ -482,7 +503,8 @@ def _run_clients(case):
             for o in ops:
                 twin = _build_object(case)
                 try:
-                    row.append(("ok", _client_op(case["object"], twin, o["op"], o["box"])))
+                    row.append(("ok", _client_op(case["object"], twin, o["op"], o["box"],
+                                                 _right_frame(case))))
                 except HarnessError:
                     raise
                 except Exception as e:  # noqa: BLE001 - sequential failure: not comparable
@@ -501,13 +523,15 @@ def _run_clients(case):
     got = [[None] * len(ops) for ops in case["clients"]]
     with seams.installed(sim, None):
         shared = _build_object(case)
+        shared_right = _right_frame(case)
 
         def client(ci):
             def run():
                 for oi, o in enumerate(case["clients"][ci]):
                     sim.event("invoke", (ci, oi, o["op"]))
                     try:
-                        got[ci][oi] = ("ok", _client_op(case["object"], shared, o["op"], o["box"]))
+                        got[ci][oi] = ("ok", _client_op(case["object"], shared, o["op"], o["box"],
+                                                        shared_right))
                     except HarnessError:
                         raise
                     except Exception as e:  # noqa: BLE001
@@ -522,10 +546,26 @@ def _run_clients(case):
         for t in tasks:
             if isinstance(t.exc, HarnessError):
                 raise t.exc
+        # the operations are read-only: the shared objects are what they were
+        modified = None
+        if case["object"] == "frame":
+            fresh = _build_object(case)
+            if _canon_df(shared) != _canon_df(fresh) or \
+                    list(shared.index.names) != list(fresh.index.names):
+                modified = f"shared frame: index names {list(shared.index.names)}, columns " \
+                           f"{list(shared.columns)} (built with {list(fresh.index.names)}, " \
+                           f"{list(fresh.columns)})"
+        if modified is None and shared_right is not None:
+            fresh = _right_frame(case)
+            if _canon_df(shared_right) != _canon_df(fresh):
+                modified = f"shared right frame of the joins: index name " \
+                           f"{shared_right.index.name!r}, columns {list(shared_right.columns)}"
     st = {"events": sim.n_events, "switches": sim.switches, "sim_time": sim.now,
           "tasks": len(sim.tasks)}
     digest = sim.digest()
     allops = {o["op"] for ops in case["clients"] for o in ops}
+    if any(op.startswith("sjoin_") for op in allops):
+        probes["concurrent_sjoin_of_shared_frames"] = 1
     if "pickle" in allops:
         probes["pickle_of_indexed_object"] = 1
     if inside.get("seen_build", 0) > 0 and len(case["clients"]) > 1:
@@ -559,6 +599,11 @@ def _run_clients(case):
                               f"client {ci} op {o['op']} box={o['box']} on a shared "
                               f"{case['object']}: got {str(g[1])[:200]} expected {str(exp[1])[:200]}",
                               sig, digest, True, probes, **st)
+    if modified:
+        sig["op"] = "shared-object"
+        return result(False, "concurrent-shared-object-modified",
+                      f"after {len(case['clients'])} clients ran {sorted(allops)} (all read-only) "
+                      f"the {modified}", sig, digest, True, probes, **st)
     return result(True, digest=digest, nontrivial=sim.switches > 0, probes=probes, **st)
 
 
